@@ -21,8 +21,8 @@ THEOREM_NOTES = ("coq/Props/C18.v: hull membership via every separating directio
 LEVEL_TEXT = ("General theorems (all degrees, all sorted knot vectors with any multiplicities, all parameters of the closed domain, "
               "all dimensions, all directions): convex-hull containment of curve/surface/volume points in the active control points, "
               "also for rational shapes with positive weights; bounding-box specification and containment; clamped end points / "
-              "corners; chord <= polyline length.  Partial: 'length <= control polygon length' is not proved, it is only checked by "
-              "the exact oracle on sampled curves.  The tie between the Gallina model (Model/Eval.v, Model/Hull.v) and geomdl is the "
+              "corners; chord <= polyline length <= control-polygon length (round 2, Proofs/HullPolyline.v: C(u) = P_0 + sum T_i(u)(P_i - P_{i-1}) "
+              "with monotone T_i; any degree, any sorted knot vector, any dimension, any non-decreasing parameter sequence).  The tie between the Gallina model (Model/Eval.v, Model/Hull.v) and geomdl is the "
               "sampled correspondence of this check.")
 LEVEL_NOTE = "theorems are over the real-number instance of the model; the executable rational instance is what the correspondence runs"
 TECHNIQUE = "Coq proofs (induction over the evaluators' accumulation loops; partition of unity + non-negativity on closed spans) + exact Fraction oracles"
